@@ -153,4 +153,31 @@ example : guard { dryRun := false, force := false, repo := some ["w"], status :=
 example : guard { dryRun := false, force := false, repo := some ["w"], status := [["w", "a.rego"]],
                   modified := [["w", "p", "a.rego"]], deleted := [["w", "a.rego"]] } = .refuse := by decide
 
+/-- **findRepoMulti_spec**: with several path arguments the gate consults a repository only if it is the repository of
+EVERY argument, found by walking up from the argument itself — where `regal fix` was started from plays no role. -/
+theorem findRepoMulti_spec (hasGit : List String → Bool) (dirs : List (List String)) (r : List String)
+    (h : findRepoMulti hasGit dirs = some r) : ∀ d ∈ dirs, findRepo hasGit d = some r := by
+  cases dirs with
+  | nil => simp [findRepoMulti] at h
+  | cons d ds =>
+    simp only [findRepoMulti] at h
+    cases hd : findRepo hasGit d with
+    | none => rw [hd] at h; cases h
+    | some r' =>
+      rw [hd] at h
+      simp only at h
+      split at h
+      · rename_i hall
+        cases h
+        intro x hx
+        simp only [List.mem_cons] at hx
+        rcases hx with rfl | hx
+        · exact hd
+        · have := (List.all_eq_true.1 hall) x hx
+          simpa using this
+      · cases h
+
+example : findRepoMulti (fun r => r == ["w", "tmp"]) [["p", "w", "tmp"], ["q", "w", "tmp"]] = some ["w", "tmp"] := by decide
+example : findRepoMulti (fun r => r == ["p", "w", "tmp"]) [["p", "w", "tmp"], ["q", "w", "tmp"]] = none := by decide
+
 end RegalModel.GitGuard
